@@ -47,6 +47,23 @@ pub enum Case {
         bad: Op,
         tail: Vec<u8>,
         in_xz: bool,
+        /// sink accepts at most this many bytes per write call (0 = unlimited)
+        #[serde(default)]
+        sink_max: usize,
+    },
+    /// A literal decoded in matched-literal mode (state >= 7) whose rep0 distance
+    /// reaches behind a dictionary reset made by an uncompressed chunk: valid
+    /// chunks (the last one compressed and ending in a copy with distance d),
+    /// then an uncompressed chunk WITH dictionary reset carrying fewer than d
+    /// bytes, then a compressed chunk WITHOUT state reset that starts with a
+    /// literal. (liblzma refuses the chunk sequence; lzma-rs parses it, so the
+    /// distance guard is what must reject it.)
+    StaleRepLiteral {
+        before: Vec<Chunk>,
+        raw_len: usize,
+        lits: Vec<u8>,
+        in_xz: bool,
+        sink_max: usize,
     },
 }
 
@@ -65,6 +82,8 @@ pub struct Abs {
     with_size: bool,
     // lzma2 variant
     l2: Option<(Vec<AbsChunk>, u8, bool)>,
+    stale: bool,
+    sink_max: usize,
 }
 
 pub struct C09;
@@ -156,9 +175,10 @@ impl Property for C09 {
                 3 => Just(None),
                 2 => (abs_chunks(4, 12, 10, false), 0u8..4, any::<bool>()).prop_map(Some),
             ],
+            (prop::bool::weighted(0.12), prop_oneof![3 => Just(0usize), 1 => 1usize..9]),
         )
             .prop_map(
-                |((props, (container, dict), prog, cut_sel, cut_class), (bad_kind, bad_sel, len_class, tail, with_size), l2)| Abs {
+                |((props, (container, dict), prog, cut_sel, cut_class), (bad_kind, bad_sel, len_class, tail, with_size), l2, (stale, sink_max))| Abs {
                     props,
                     dict,
                     container,
@@ -171,6 +191,8 @@ impl Property for C09 {
                     tail,
                     with_size,
                     l2,
+                    stale,
+                    sink_max,
                 },
             )
             .boxed()
@@ -206,6 +228,30 @@ impl Property for C09 {
                         }
                     }
                 }
+            }
+            if a.stale {
+                // make the valid part end with a compressed chunk whose last op is a copy
+                let mut before = before;
+                let need_all = before.is_empty();
+                let d = 2 + (a.bad_sel % 200) as u32;
+                let mut ops: Vec<Op> = (0..d + 1).map(|i| Op::Lit((i as u8).wrapping_mul(37) ^ a.bad_kind)).collect();
+                ops.push(Op::Match { dist: d, len: len_of(a.len_class, a.bad_sel) });
+                let props = if a.props.lc + a.props.lp > 4 { Props::new(3, 0, 2) } else { a.props };
+                before.push(Chunk::Lzma {
+                    reset: if need_all { Reset::All } else { Reset::StateProps },
+                    props,
+                    ops,
+                });
+                let raw_len = 1 + (a.cut_sel as usize % (d as usize - 1).max(1)).min(d as usize - 2);
+                let mut lits = a.tail.clone();
+                lits.insert(0, a.bad_kind ^ 0x5C);
+                return Case::StaleRepLiteral {
+                    before,
+                    raw_len,
+                    lits,
+                    in_xz: *in_xz,
+                    sink_max: a.sink_max,
+                };
             }
             let mut need_props = true;
             for ch in &before {
@@ -250,6 +296,7 @@ impl Property for C09 {
                 bad,
                 tail: a.tail.clone(),
                 in_xz: *in_xz,
+                sink_max: a.sink_max,
             };
         }
         let eff = match a.container {
@@ -299,6 +346,8 @@ impl Property for C09 {
             ("pos:cursor==0", 300 * m),
             ("pos:cursor==dict-1", 300 * m),
             ("lzma2:distance reaches behind dictionary reset", 300 * m),
+            ("bad:matched literal with rep0 behind a dictionary reset", 1000 * m),
+            ("sink:short writes", 1000 * m),
         ]
     }
 
@@ -419,7 +468,68 @@ impl Property for C09 {
                 }
                 Judgement::Pass
             }
-            Case::Lzma2 { before, reset, props, prefix, bad, tail, in_xz } => {
+            Case::StaleRepLiteral { before, raw_len, lits, in_xz, sink_max } => {
+                let mut chunks = before.clone();
+                let data: Vec<u8> = (0..*raw_len).map(|i| 0xC3u8.wrapping_add(i as u8)).collect();
+                chunks.push(Chunk::Raw { reset_dict: true, data });
+                let valid_out = match super::c02::interpret_chunks(&chunks) {
+                    Ok(o) => o,
+                    Err(e) => return Judgement::HarnessBug(format!("valid part invalid: {}", e)),
+                };
+                let props = match before.last() {
+                    Some(Chunk::Lzma { props, .. }) => *props,
+                    _ => return Judgement::HarnessBug("stale-rep case without compressed chunk".into()),
+                };
+                chunks.push(Chunk::Lzma {
+                    reset: Reset::None,
+                    props,
+                    ops: lits.iter().map(|b| Op::Lit(*b)).collect(),
+                });
+                let enc = match crate::refmodel::lzma2::write_lzma2_lenient(&chunks) {
+                    Ok(e) => e,
+                    Err(e) => return Judgement::HarnessBug(format!("lenient writer: {}", e)),
+                };
+                st.class("window:accumulating/lzma2");
+                st.class("bad:matched literal with rep0 behind a dictionary reset");
+                if *sink_max > 0 {
+                    st.class("sink:short writes");
+                }
+                st.nontrivial(&(&*before, *raw_len, &*lits, *in_xz, *sink_max));
+                st.sample("lzma2 stale rep0 literal", || {
+                    json!({"valid_chunks": chunks_text(before, 4), "then": format!("Raw(reset_dict=true, {}B) ; Lzma(no reset, {} literals)", raw_len, lits.len()), "stream": hex_prefix(&enc.bytes, 40)})
+                });
+                st.eval();
+                let io = Io {
+                    sink: crate::iowrap::SinkCfg {
+                        max_per_write: if *sink_max > 0 { vec![*sink_max] } else { vec![] },
+                        ..Default::default()
+                    },
+                    ..Default::default()
+                };
+                let r = if *in_xz {
+                    let f = super::c02::xz_wrap(&enc.bytes, &enc.output, 1);
+                    sut::xz_decompress(&f, &ReaderKind::Slice, &io)
+                } else {
+                    sut::lzma2_decompress(&enc.bytes, &ReaderKind::Slice, &io)
+                };
+                let what = format!(
+                    "LZMA2{} chunks [{}] then Raw(reset_dict=true, {}B) then Lzma(no state reset) starting with a literal: the literal's match byte lies at rep0 distance behind the dictionary reset",
+                    if *in_xz { " in .xz" } else { "" },
+                    chunks_text(before, 6),
+                    raw_len
+                );
+                if r.verdict.is_ok() {
+                    return Judgement::violation("accepted:stale-rep-literal", format!("accepted: {}", what));
+                }
+                if let sut::Verdict::Panic(p) = &r.verdict {
+                    return Judgement::violation(format!("panic:{}", sut::panic_site(p)), format!("{} ; {}", what, p));
+                }
+                if r.out.len() > valid_out.len() || r.out[..] != valid_out[..r.out.len()] {
+                    return Judgement::violation("fabricated-bytes", format!("sink is not a prefix of the valid output: {}", what));
+                }
+                Judgement::Pass
+            }
+            Case::Lzma2 { before, reset, props, prefix, bad, tail, in_xz, sink_max } => {
                 let mut chunks = before.clone();
                 let mut ops = prefix.clone();
                 ops.push(*bad);
@@ -470,17 +580,27 @@ impl Property for C09 {
                     st.class("bad:first symbol rep/shortrep");
                 }
                 if !before.is_empty() || !prefix.is_empty() {
-                    st.nontrivial(&(&*before, *reset, props.byte(), &*prefix, *bad, &*tail, *in_xz));
+                    st.nontrivial(&(&*before, *reset, props.byte(), &*prefix, *bad, &*tail, *in_xz, *sink_max));
                     st.sample("lzma2", || {
                         json!({"valid_chunks": chunks_text(before, 4), "last_chunk_reset": format!("{:?}", reset), "valid_prefix": program_text(prefix, 12), "bad_op": bad.short(), "stream": hex_prefix(&enc.bytes, 40)})
                     });
                 }
                 st.eval();
+                if *sink_max > 0 {
+                    st.class("sink:short writes");
+                }
+                let io = Io {
+                    sink: crate::iowrap::SinkCfg {
+                        max_per_write: if *sink_max > 0 { vec![*sink_max] } else { vec![] },
+                        ..Default::default()
+                    },
+                    ..Default::default()
+                };
                 let r = if *in_xz {
                     let f = super::c02::xz_wrap(&enc.bytes, &enc.output, 1);
-                    sut::xz_decompress(&f, &ReaderKind::Slice, &Io::default())
+                    sut::xz_decompress(&f, &ReaderKind::Slice, &io)
                 } else {
-                    sut::lzma2_decompress(&enc.bytes, &ReaderKind::Slice, &Io::default())
+                    sut::lzma2_decompress(&enc.bytes, &ReaderKind::Slice, &io)
                 };
                 let what = format!(
                     "LZMA2{} valid chunks [{}] then chunk({:?}) with valid prefix [{}] then {}",
